@@ -409,5 +409,139 @@ theorem verifyMulti_new_complete [DecidableEq F] (g g2 τ : F) (D m : Nat) (ps :
   rw [verifyMulti_new_iff g g2 τ D m ps pts _ η π hps h hnd hm hD (by simp) hπ vk hvk]
   ring
 
+/-! ### a changed evaluation is rejected -/
+
+/-- `ys` with `δ` added at position `j` -/
+def bump : List F → Nat → F → List F
+  | [], _, _ => []
+  | y :: ys, 0, δ => (y + δ) :: ys
+  | y :: ys, j + 1, δ => y :: bump ys j δ
+
+/-- the evaluation table with `δ` added to the value of polynomial `a` at point `b` -/
+def bumpAt : List (List F) → Nat → Nat → F → List (List F)
+  | [], _, _, _ => []
+  | e :: es, 0, b, δ => bump e b δ :: es
+  | e :: es, a + 1, b, δ => e :: bumpAt es a b δ
+
+theorem bumpAt_length (es : List (List F)) (a b : Nat) (δ : F) :
+    (bumpAt es a b δ).length = es.length := by
+  induction es generalizing a with
+  | nil => rfl
+  | cons e es ih => cases a <;> simp [bumpAt, ih]
+
+theorem isum_bump (ss : List F) (ls : List (List F)) (ys : List F) (j : Nat) (δ x : F)
+    (hj : j < ys.length) :
+    isum ss ls (bump ys j δ) x
+      = isum ss ls ys x + δ * (ss.getD j 0 * evalPoly (ls.getD j []) x) := by
+  induction ss generalizing ls ys j with
+  | nil => cases ys <;> simp [isum]
+  | cons s ss ih =>
+    cases ls with
+    | nil => cases ys <;> simp [isum]
+    | cons l ls =>
+      cases ys with
+      | nil => simp at hj
+      | cons y ys =>
+        cases j with
+        | zero => simp [bump, isum]; ring
+        | succ j =>
+          simp only [bump, isum, List.getD_cons_succ]
+          rw [ih ls ys j (by simpa using hj)]
+          ring
+
+theorem lagrange_coeff_ne_zero (pre rest : List F) (j : Nat) (τ : F) (hj : j < rest.length)
+    (hnd : (pre ++ rest).Nodup) (hτ : τ ∉ pre ++ rest) :
+    ((scaAll pre rest).map (·⁻¹)).getD j 0 * evalPoly ((langAll pre rest).getD j []) τ ≠ 0 := by
+  induction rest generalizing pre j with
+  | nil => simp at hj
+  | cons xj post ih =>
+    have hmid := List.nodup_cons.1 (List.nodup_middle.1 hnd)
+    cases j with
+    | zero =>
+      simp only [scaAll, langAll, List.map_cons, List.getD_cons_zero, eval_vanishing,
+        foldl_mul_eq_prodLin, one_mul]
+      apply mul_ne_zero
+      · exact inv_ne_zero (prodLin_ne_zero_of_not_mem _ _ hmid.1)
+      · apply prodLin_ne_zero_of_not_mem
+        intro hmem
+        apply hτ
+        rcases List.mem_append.1 hmem with h | h
+        · exact List.mem_append_left _ h
+        · exact List.mem_append_right _ (List.mem_cons_of_mem _ h)
+    | succ j =>
+      simp only [scaAll, langAll, List.map_cons, List.getD_cons_succ]
+      exact ih (pre ++ [xj]) j (by simpa using hj) (by simpa using hnd) (by simpa using hτ)
+
+theorem powers_getD (g β : F) (n a : Nat) (h : a < n) : (PCV.powers g β n).getD a 0 = β ^ a * g := by
+  induction n generalizing g a with
+  | zero => omega
+  | succ n ih =>
+    cases a with
+    | zero => simp [PCV.powers]
+    | succ a =>
+      simp only [PCV.powers, List.getD_cons_succ]
+      rw [ih (β * g) a (by omega), pow_succ]; ring
+
+theorem dot_map_bumpAt (f : List F → F) (es : List (List F)) (cs : List F) (a b : Nat) (δ : F)
+    (ha : a < es.length) :
+    dot ((bumpAt es a b δ).map f) cs
+      = dot (es.map f) cs + cs.getD a 0 * (f (bump (es.getD a []) b δ) - f (es.getD a [])) := by
+  induction es generalizing cs a with
+  | nil => simp at ha
+  | cons e es ih =>
+    cases cs with
+    | nil => simp
+    | cons c cs =>
+      cases a with
+      | zero => simp [bumpAt]; ring
+      | succ a =>
+        simp only [bumpAt, List.map_cons, dot_cons, List.getD_cons_succ]
+        rw [ih cs a (by simpa using ha)]; ring
+
+/-- the η-combined interpolant moves by `ηᵃ·δ·ℓ_b(τ)` when the value of polynomial `a` at point `b`
+is shifted by `δ`; the Lagrange basis value `ℓ_b(τ)` is non-zero off the point set -/
+theorem interpAt_bump_ne (pts : List F) (evals : List (List F)) (η τ δ : F) (a b : Nat)
+    (ha : a < evals.length) (hb : b < (evals.getD a []).length) (hbp : b < pts.length)
+    (hnd : pts.Nodup) (hτ : τ ∉ pts) (hη : η ≠ 0) (hδ : δ ≠ 0) :
+    interpAt pts (bumpAt evals a b δ) η τ - interpAt pts evals η τ ≠ 0 := by
+  unfold interpAt
+  rw [bumpAt_length, dot_map_bumpAt (fun e => evalPoly (interpolate pts e) τ) evals _ a b δ ha]
+  simp only [add_sub_cancel_left]
+  unfold interpolate
+  rw [eval_interpolateAux, eval_interpolateAux, isum_bump _ _ _ _ _ _ hb]
+  rw [show ∀ p q r : F, (p + (q + r)) - (p + q) = r from fun p q r => by ring]
+  rw [powersOf, powers_getD _ _ _ _ ha]
+  have hc := lagrange_coeff_ne_zero [] pts b τ hbp (by simpa using hnd) (by simpa using hτ)
+  exact mul_ne_zero (mul_ne_zero (pow_ne_zero _ hη) one_ne_zero) (mul_ne_zero hδ hc)
+
+theorem verifyMulti_new_reject [DecidableEq F] (g g2 τ : F) (D m : Nat) (ps : List (List F))
+    (pts : List F) (η π δ : F) (a b : Nat) (hps : ps ≠ [])
+    (h : ∀ p ∈ ps, p.length ≤ D + 1) (hnd : pts.Nodup) (hm : pts.length ≤ m) (hD : m ≤ D)
+    (hπ : Time.batchOpenMultiPoints (CK.new g g2 τ D m) ps pts η = .ok π) (vk : VK F)
+    (hvk : VK.ofTime (CK.new g g2 τ D m) = .ok vk
+      ∨ VK.ofSpace (CKS.ofTime (CK.new g g2 τ D m)) = .ok vk)
+    (ha : a < ps.length) (hb : b < pts.length) (hg : g ≠ 0) (hg2 : g2 ≠ 0) (hη : η ≠ 0)
+    (hδ : δ ≠ 0) (hτ : τ ∉ pts) :
+    verifyMultiPoints vk (Time.batchCommit (CK.new g g2 τ D m) ps) pts
+      (bumpAt (ps.map (fun p => pts.map (evalPoly p))) a b δ) π η = .ok false := by
+  have hiff := verifyMulti_new_iff g g2 τ D m ps pts
+    (bumpAt (ps.map (fun p => pts.map (evalPoly p))) a b δ) η π hps h hnd hm hD
+    (by rw [bumpAt_length]; simp) hπ vk hvk
+  obtain ⟨k, hk, rfl⟩ := vk_new_shape g g2 τ D m hD vk hvk
+  have hne : (bumpAt (ps.map (fun p => pts.map (evalPoly p))) a b δ) ≠ [] := by
+    intro hc
+    have := bumpAt_length (ps.map (fun p => pts.map (evalPoly p))) a b δ
+    rw [hc] at this
+    simp at this
+    exact hps (List.length_eq_zero_iff.1 this.symm)
+  rw [verifyMulti_wf g g2 τ k (m + 1) _ pts _ π η hnd (by omega) (by omega) hne] at hiff ⊢
+  simp only [Except.ok.injEq, decide_eq_true_eq] at hiff
+  simp only [Except.ok.injEq, decide_eq_false_iff_not]
+  intro hP
+  have hz := hiff.1 hP
+  have hdiff := interpAt_bump_ne pts (ps.map (fun p => pts.map (evalPoly p))) η τ δ a b
+    (by simpa using ha) (by simp [List.getD, ha]; exact hb) hb hnd hτ hη hδ
+  exact (mul_ne_zero (mul_ne_zero hg hg2) hdiff) hz
+
 end SKZG
 end PCV
